@@ -16,6 +16,7 @@ import (
 	"encoding/base64"
 	"encoding/json"
 	"fmt"
+	"github.com/ProtonMail/gluon/limits"
 	"os"
 	"path/filepath"
 	"regexp"
@@ -153,6 +154,7 @@ type family struct {
 	Name   string // cfg name and delimiter class
 	Delim  string
 	InProc bool // connector family: in-process server + harness connector
+	Limit  int  // C17: mailbox-count limit of the family's cfg (0 = default limits); not part of C14's own run
 }
 
 var families = []family{
@@ -162,6 +164,7 @@ var families = []family{
 	{Name: "bracket", Delim: "]"},
 	{Name: "backslash", Delim: "\\"},
 	{Name: "conn", Delim: "/", InProc: true},
+	{Name: "limit", Delim: "/", InProc: true, Limit: 4},
 }
 
 func famByName(n string) *family {
@@ -206,7 +209,13 @@ func startEnv(f *family) (*env, error) {
 			n := fmt.Sprintf("u%d", i)
 			us = append(us, fixture.User{Name: n, Pass: "pass", Conn: fixture.NewVConn(map[string]string{n: "pass"})})
 		}
-		s, err := fixture.StartServer(fixture.Config{Delimiter: f.Delim, Users: us})
+		cfg := fixture.Config{Delimiter: f.Delim, Users: us}
+		if f.Limit > 0 {
+			// the hidden recovery mailbox counts as well
+			l := limits.NewIMAPLimits(uint32(f.Limit+1), 1<<20, 1<<30, 1<<30)
+			cfg.Limits = &l
+		}
+		s, err := fixture.StartServer(cfg)
 		if err != nil {
 			return nil, err
 		}
@@ -1018,6 +1027,9 @@ func run(r *ev.Run, tier, replay string) {
 	// behaviours per family
 	for i := range families {
 		f := &families[i]
+		if f.Limit > 0 {
+			continue
+		}
 		wg.Add(1)
 		go func(i int) {
 			defer wg.Done()
@@ -1057,6 +1069,55 @@ func run(r *ev.Run, tier, replay string) {
 	r.Set("exhaustive", false)
 	r.Set("exhaustive_note", "the model is explored exhaustively by TLC on the bounded configurations; conformance of gluon is sampled by simulated behaviours")
 	r.Set("families", len(families))
+}
+
+// ReplayNamespace re-executes a replay file written by a namespace family (used by C06 and C17, which run families of
+// this module); it reports false when the file is not such a replay.
+func ReplayNamespace(r *ev.Run, path string) bool {
+	b, err := os.ReadFile(path)
+	if err != nil {
+		return false
+	}
+	var rp struct {
+		Replay replayObj `json:"replay"`
+	}
+	if err := json.Unmarshal(b, &rp); err != nil || rp.Replay.Beh == nil || famByName(rp.Replay.Family) == nil {
+		return false
+	}
+	r.Set("states", 1)
+	r.Set("transitions", len(rp.Replay.Beh.Trace))
+	replayFamily(r, famByName(rp.Replay.Family), []*behT{rp.Replay.Beh}, 1)
+	return true
+}
+
+// RunLimitFamily model-checks the mailbox-count configuration and replays the "limit" family (C17): CREATE and
+// RENAME with implicit parents and connector creations against a server configured with the same limit.
+func RunLimitFamily(r *ev.Run, num int, seed int64) {
+	res, err := modelCheck("GluonNamespace.mc.limit.cfg", 4)
+	if err != nil || res.Violated != "" || res.Error != "" || !res.Finished || res.TimedOut {
+		r.Machinery("TLC on GluonNamespace.mc.limit.cfg did not finish cleanly: err=%v violated=%q error=%q\n%s", err, res.Violated, res.Error, tail(res.Output))
+		return
+	}
+	r.Add("states", res.Distinct)
+	r.Add("transitions", res.Generated)
+	f := famByName("limit")
+	behs, sres, err := simulate(f, num, seed)
+	if err != nil || sres.Violated != "" || sres.Error != "" || sres.TimedOut || !sres.Finished || len(behs) < num {
+		r.Machinery("TLC simulation of family limit: err=%v violated=%q error=%q behaviours=%d\n%s", err, sres.Violated, sres.Error, len(behs), tail(sres.Output))
+		return
+	}
+	behs = behs[:num]
+	refused := 0
+	for _, b := range behs {
+		for _, st := range b.Trace {
+			if (st.Status == "NO" || st.Status == "err") && (st.Act == "CREATE" || st.Act == "RENAME" || st.Act == "MailboxCreated") {
+				refused++
+			}
+		}
+	}
+	r.Add("namespace_limit_behaviours", int64(len(behs)))
+	r.Add("namespace_limit_refusals_predicted", int64(refused))
+	replayFamily(r, f, behs, 1)
 }
 
 // RunConnectorFamily simulates and replays only the connector family (client commands interleaved with
